@@ -1,1 +1,132 @@
-//! Verification doors: hello (cfg(trusttunnel_verif) only)
+//! Verification doors: ClientHello peeking (cfg(trusttunnel_verif) only)
+
+use crate::log_utils;
+use crate::tls_demultiplexer::Protocol;
+use crate::tls_listener::{PrebufferedTcpStream, TlsAcceptor, TlsListener};
+use rustls::{Certificate, PrivateKey};
+use std::io;
+use std::pin::Pin;
+use std::task::{Context, Poll};
+use tokio::io::{AsyncRead, AsyncWrite, ReadBuf};
+use tokio::net::TcpStream;
+use tokio_rustls::server::TlsStream;
+
+/// Plain view of `ClientRandomExtraction`
+#[derive(Debug, Clone, PartialEq, Eq)]
+pub enum Extraction {
+    Found(Vec<u8>),
+    NeedMoreData,
+    NotFound,
+}
+
+/// `TlsListener::extract_client_random` on the bytes buffered so far
+pub fn extract_client_random(data: &[u8]) -> Extraction {
+    match TlsListener::verif_extract_client_random(data) {
+        ("Found", Some(r)) => Extraction::Found(r),
+        ("NeedMoreData", _) => Extraction::NeedMoreData,
+        _ => Extraction::NotFound,
+    }
+}
+
+/// The stream the TLS stack is given after the peek: prebuffer replay, then the socket
+pub struct Peeked(PrebufferedTcpStream);
+
+impl Peeked {
+    /// (prebuffer length, replay position)
+    pub fn prebuffer(&self) -> (usize, usize) {
+        self.0.verif_prebuffer()
+    }
+}
+
+impl AsyncRead for Peeked {
+    fn poll_read(mut self: Pin<&mut Self>, cx: &mut Context<'_>, buf: &mut ReadBuf<'_>) -> Poll<io::Result<()>> {
+        Pin::new(&mut self.0).poll_read(cx, buf)
+    }
+}
+
+impl AsyncWrite for Peeked {
+    fn poll_write(mut self: Pin<&mut Self>, cx: &mut Context<'_>, data: &[u8]) -> Poll<io::Result<usize>> {
+        Pin::new(&mut self.0).poll_write(cx, data)
+    }
+
+    fn poll_flush(mut self: Pin<&mut Self>, cx: &mut Context<'_>) -> Poll<io::Result<()>> {
+        Pin::new(&mut self.0).poll_flush(cx)
+    }
+
+    fn poll_shutdown(mut self: Pin<&mut Self>, cx: &mut Context<'_>) -> Poll<io::Result<()>> {
+        Pin::new(&mut self.0).poll_shutdown(cx)
+    }
+}
+
+/// `TlsListener::read_client_random_and_wrap_stream`: the peek alone
+pub async fn peek(stream: TcpStream) -> io::Result<(Peeked, Option<Vec<u8>>)> {
+    TlsListener::verif_peek(stream).await.map(|(s, r)| (Peeked(s), r))
+}
+
+/// What `TlsListener::listen` returns: the parsed ClientHello and the pending handshake
+pub struct Acceptor(TlsAcceptor);
+
+/// `TlsListener::listen`: peek, then the rustls lazy acceptor on the wrapped stream
+pub async fn listen(stream: TcpStream) -> io::Result<Acceptor> {
+    TlsListener::new().listen(stream).await.map(Acceptor)
+}
+
+impl Acceptor {
+    pub fn client_random(&self) -> Option<Vec<u8>> {
+        self.0.client_random()
+    }
+
+    pub fn sni(&self) -> Option<String> {
+        self.0.sni()
+    }
+
+    pub fn alpn(&self) -> Vec<Vec<u8>> {
+        self.0.alpn()
+    }
+
+    /// `TlsAcceptor::accept` with DER certificate chain and key; `h2` selects HTTP/2, otherwise HTTP/1.1
+    pub async fn accept(self, h2: bool, cert_chain: Vec<Vec<u8>>, key: Vec<u8>) -> io::Result<Accepted> {
+        self.0
+            .accept(
+                if h2 { Protocol::Http2 } else { Protocol::Http1 },
+                cert_chain.into_iter().map(Certificate).collect(),
+                PrivateKey(key),
+                &log_utils::IdChain::from(log_utils::IdItem::new(log_utils::CLIENT_ID_FMT, 0)),
+            )
+            .await
+            .map(Accepted)
+    }
+}
+
+/// The established server-side TLS stream
+pub struct Accepted(TlsStream<PrebufferedTcpStream>);
+
+impl Accepted {
+    pub fn prebuffer(&self) -> (usize, usize) {
+        self.0.get_ref().0.verif_prebuffer()
+    }
+
+    pub fn negotiated_alpn(&self) -> Option<Vec<u8>> {
+        self.0.get_ref().1.alpn_protocol().map(|x| x.to_vec())
+    }
+}
+
+impl AsyncRead for Accepted {
+    fn poll_read(mut self: Pin<&mut Self>, cx: &mut Context<'_>, buf: &mut ReadBuf<'_>) -> Poll<io::Result<()>> {
+        Pin::new(&mut self.0).poll_read(cx, buf)
+    }
+}
+
+impl AsyncWrite for Accepted {
+    fn poll_write(mut self: Pin<&mut Self>, cx: &mut Context<'_>, data: &[u8]) -> Poll<io::Result<usize>> {
+        Pin::new(&mut self.0).poll_write(cx, data)
+    }
+
+    fn poll_flush(mut self: Pin<&mut Self>, cx: &mut Context<'_>) -> Poll<io::Result<()>> {
+        Pin::new(&mut self.0).poll_flush(cx)
+    }
+
+    fn poll_shutdown(mut self: Pin<&mut Self>, cx: &mut Context<'_>) -> Poll<io::Result<()>> {
+        Pin::new(&mut self.0).poll_shutdown(cx)
+    }
+}
